@@ -360,6 +360,90 @@ inductive GReachableV (onlyFirst : Bool) (P : Params) : GState → Prop where
 
 def genabled (P : Params) (g : GState) : List Tid := (threads g.core).filter fun t => (gstep P g t).isSome
 
+/-! ### the status wait at the level of `cond.Wait` / `cond.Broadcast`
+
+`step` lets a dependent pass `t.wait()` whenever the dependency is not running. The code is finer: a waiter that finds
+`t.status == statusRunning` goes to sleep in `t.c.Wait()` (test and sleep are one critical section of `t.m`) and moves
+again only after `run`'s exit has broadcast on `t.c`; `Broadcast` wakes *all* sleepers of that target, each of which
+re-tests the status in its `for` loop. `WState` adds who sleeps in a status wait (`wsleep`, per thread: the target it
+sleeps on is the head of its `waitDeps` list, or the requested target for the caller of `Run`) and in which order
+(`wq`, used only by the `Signal` variant). Every `wstep` is a `gstep` of the gate-level state or leaves it unchanged.
+`WMode` selects the code (`broadcast`) or one of two seeded defects kept as regression witnesses. -/
+
+/-- the target a thread is waiting for in `t.wait()`, if that is where it stands -/
+def sleepsOn (P : Params) (s : State) : Tid → Option Label
+  | .main => match s.main with
+    | .wait => some P.root
+    | _ => none
+  | .tgt x => match s.pc x with
+    | some (.waitDeps (d :: _) _) => some d
+    | _ => none
+
+/-- `run`'s exit: the label whose status the thread is about to set, and the error it stores -/
+def finishing (s : State) : Tid → Option (Label × Err)
+  | .main => none
+  | .tgt l => match s.pc l with
+    | some (.finish _ e) => some (l, e)
+    | _ => none
+
+inductive WMode where
+  | broadcast          -- the code: both exits of `run` unlock and `Broadcast`
+  | noBroadcastOnLoadFailure   -- seeded defect: the `LoadTarget`-error exit only unlocks
+  | signal             -- seeded defect: `Signal` instead of `Broadcast`
+deriving DecidableEq, Repr
+
+structure WState where
+  g      : GState
+  wsleep : Tid → Bool          -- inside `t.c.Wait()`, not woken
+  wq     : List Tid            -- the sleepers in the order they went to sleep
+
+def winit (P : Params) : WState := { g := ginit P, wsleep := fun _ => false, wq := [] }
+
+def updT {α : Type} (f : Tid → α) (t : Tid) (v : α) : Tid → α := fun x => if x = t then v else f x
+
+/-- `t.c.Broadcast()` for target `l` -/
+def wbroadcast (P : Params) (l : Label) (w : WState) : WState :=
+  { w with wsleep := fun x => if sleepsOn P w.g.core x = some l then false else w.wsleep x,
+           wq := w.wq.filter fun x => !(sleepsOn P w.g.core x == some l) }
+
+/-- `t.c.Signal()` for target `l`: the longest sleeper on `l` only -/
+def wsignal (P : Params) (l : Label) (w : WState) : WState :=
+  match w.wq.find? fun x => sleepsOn P w.g.core x == some l with
+  | none => w
+  | some x => { w with wsleep := updT w.wsleep x false, wq := w.wq.erase x }
+
+def wwake (mode : WMode) (P : Params) (l : Label) (e : Err) (w : WState) : WState :=
+  match mode with
+  | .broadcast => wbroadcast P l w
+  | .noBroadcastOnLoadFailure => if e = .unknown then w else wbroadcast P l w
+  | .signal => wsignal P l w
+
+def wstepV (mode : WMode) (P : Params) (w : WState) (t : Tid) : Option WState :=
+  match sleepsOn P w.g.core t with
+  | some d =>
+    if w.wsleep t then none                                              -- sleeping until woken
+    else if w.g.core.status d = .running then                            -- `for t.status == statusRunning { t.c.Wait() }`
+      some { w with wsleep := updT w.wsleep t true, wq := w.wq ++ [t] }
+    else (gstep P w.g t).map fun g' => { w with g := g' }                -- `return t.err`
+  | none =>
+    match finishing w.g.core t with
+    | some (l, e) => (gstep P w.g t).map fun g' => wwake mode P l e { w with g := g' }
+    | none => (gstep P w.g t).map fun g' => { w with g := g' }
+
+def wstep (P : Params) (w : WState) (t : Tid) : Option WState := wstepV .broadcast P w t
+
+inductive WReachableV (mode : WMode) (P : Params) : WState → Prop where
+  | init : WReachableV mode P (winit P)
+  | step {w w' : WState} (t : Tid) : WReachableV mode P w → wstepV mode P w t = some w' → WReachableV mode P w'
+
+abbrev WReachable (P : Params) : WState → Prop := WReachableV .broadcast P
+
+def wrunSched (mode : WMode) (P : Params) : WState → List Tid → Option WState
+  | w, [] => some w
+  | w, t :: ts => match wstepV mode P w t with
+    | some w' => wrunSched mode P w' ts
+    | none => none
+
 /-! ### the order of operations the program counters follow (compared with the source by `Dawn/Ties/Runner.lean`) -/
 
 /-- top level of `EvaluateTargets`: `exit1`, (deferred `enter2`), `startDeps`, publish, (deferred un-publish), walk, `waitDeps` -/
